@@ -52,6 +52,16 @@ def opTags (w : World) : Op → List String
   | .err => []
   | .flag => ["timer-fired"]
   | .hbs => ["heart_beats()"]
+  | .cerr => ["error.caught-by-catch"]
+  | .reload t n =>
+    if !w.alive t || t < 2 then ["op.target-gone"]
+    else
+      let w1 := setHeartBeat w t 0
+      ["reload_object"] ++ (shbTags w t 0).map ("reload:" ++ ·) ++ efunTags n ++
+        (shbTags w1 t (NV.Gen.C11.efunSat n)).map ("create:" ++ ·)
+  | .living => ["enable_commands"]
+  | .burn => ["eval_cost-used"]
+  | .rp => ["replace_program"]
 
 def runOpsT (w : World) (self : Nat) : List Op → World × List Ev × Status × List String
   | [] => (w, [], .ok, [])
@@ -61,6 +71,10 @@ def runOpsT (w : World) (self : Nat) : List Op → World × List Ev × Status ×
     | (w1, evs, .ok) =>
       match runOpsT w1 self rest with
       | (w2, evs2, st, tg2) => (w2, evs ++ evs2, st, tg ++ tg2)
+    | (w1, evs, .stop) =>
+      match rest with
+      | .err :: _ => (w1, evs ++ [.err self], .err, tg ++ ["error.after-self-destruct"])
+      | _ => (w1, evs, .stop, tg)
     | (w1, evs, st) => (w1, evs, st, tg)
 
 def errTags (w : World) : List String :=
@@ -85,17 +99,22 @@ def roundT (sc : Scripts) : Nat → World → World × List Ev × List String
         let nofn := w.nofn.contains hb.ob
         let b := NV.Gen.C11.hbBody (if nofn then -1 else 0) hb.ticks hb.interval
         if b.2.1 then
-          let w1 := { w with hbs := w.hbs.set w.idx.toNat { hb with ticks := b.2.2 }, cur := some hb.ob,
-                             nb := fun o => if o = hb.ob then w.nb o + 1 else w.nb o }
+          let w0 : World := { w with hbs := w.hbs.set w.idx.toNat { hb with ticks := b.2.2 },
+                                     nb := fun o => if o = hb.ob then w.nb o + 1 else w.nb o }
+          let w1 := callSetup w0 hb.ob
+          let ctg := [if w.living.contains hb.ob then "chb.call.living:command_giver=ob" else "chb.call.not-living:command_giver=0",
+                      if w.ec then "chb.call.eval_cost-was-full" else "chb.call.eval_cost-reset-after-use"]
           match runOpsT w1 hb.ob (sc hb.ob (w.nb hb.ob)) with
           | (w2, evs, .err, tg) =>
-            (errorHandler w2, .beat hb.ob :: evs ++ [.tickAbort], "chb.entry.due:call" :: tg ++ errTags w2 ++ ["chb.round-abandoned"])
+            (errorHandler w2, .beat hb.ob :: ctxEv w1 hb.ob :: evs ++ [.tickAbort],
+             "chb.entry.due:call" :: ctg ++ tg ++ errTags w2 ++ ["chb.round-abandoned"])
           | (w2, evs, _, tg) =>
-            let tg := "chb.entry.due:call" :: tg ++ stepTags w2
-            if (cursorStep w2).2 then (finish (cursorStep w2).1, .beat hb.ob :: evs ++ [.beatEnd hb.ob, .tickEnd], tg)
+            let w2 := callAfter w2 hb.ob
+            let tg := "chb.entry.due:call" :: ctg ++ tg ++ stepTags w2
+            if (cursorStep w2).2 then (finish (cursorStep w2).1, .beat hb.ob :: ctxEv w1 hb.ob :: evs ++ [.beatEnd hb.ob, .tickEnd], tg)
             else
               match roundT sc fuel (cursorStep w2).1 with
-              | (w4, evs', tg') => (w4, .beat hb.ob :: evs ++ .beatEnd hb.ob :: evs', tg ++ tg')
+              | (w4, evs', tg') => (w4, .beat hb.ob :: ctxEv w1 hb.ob :: evs ++ .beatEnd hb.ob :: evs', tg ++ tg')
         else
           let w1 := { w with hbs := w.hbs.set w.idx.toNat { hb with ticks := b.1 } }
           let tg := (if nofn then "chb.entry.no-heart_beat-function" else "chb.entry.not-due") :: stepTags w1
@@ -105,14 +124,24 @@ def roundT (sc : Scripts) : Nat → World → World × List Ev × List String
             | (w4, evs', tg') => (w4, evs', tg ++ tg')
 
 def tickT (sc : Scripts) (w : World) : World × List Ev × List String :=
-  let w : World := { w with flag := false, todo := (w.hbs.length : Int) }
-  if w.todo > 0 then
-    match roundT sc w.hbs.length { w with idx := 0 } with
-    | (w', evs, tg) => (w', .tickBegin :: evs, "chb.num_hb_to_do>0" :: tg)
-  else ({ w with cur := none }, [.tickBegin, .tickEnd], ["chb.num_hb_to_do=0"])
+  let e := NV.Gen.C11.roundEntry (w.hbs.length : Int) w.idx w.todo (if w.flag then 1 else 0) w.tflags
+  let begin : Ev := if hbOn w.tflags then .tickBegin else .tickOff
+  let w : World := { w with flag := decide (e.2.2.1 ≠ 0), idx := e.1, todo := e.2.1 }
+  if e.2.2.2 then
+    match roundT sc w.hbs.length w with
+    | (w', evs, tg) => (w', begin :: evs, "chb.num_hb_to_do>0" :: tg)
+  else (leave w (NV.Gen.C11.roundSkip w.idx w.todo (curInt w)), [begin, .tickEnd],
+        [if hbOn w.tflags then "chb.num_hb_to_do=0" else
+           (if w.hbs.isEmpty then "chb.timer_flags-without-HEARTBEAT:empty" else "chb.timer_flags-without-HEARTBEAT:list-kept")])
 
 def stepCmdT (sc : Scripts) (w : World) : Cmd → World × List Ev × List String
-  | .tick => if w.crashed then (w, [], []) else tickT sc w
+  | .tick =>
+    if w.crashed then (w, [], [])
+    else
+      match applyRp w with
+      | (w1, e1) =>
+        match tickT sc w1 with
+        | (w2, e2, tg) => (w2, e1 ++ e2, (e1.map (fun _ => "replace_programs:program-swapped")) ++ tg)
   | .op self op =>
     if w.crashed then (w, [], [])
     else if !w.known.contains self then (w, [.topNoObj self], [])
@@ -121,6 +150,7 @@ def stepCmdT (sc : Scripts) (w : World) : Cmd → World × List Ev × List Strin
       match runOpsT w self [op] with
       | (w', evs, .err, tg) => (errorHandler w', evs ++ [.topErr self], tg ++ errTags w')
       | (w', evs, _, tg) => (w', evs, tg)
+  | .tflags n => if w.crashed then (w, [], []) else ({ w with tflags := (n : Int) }, [.tflags (n : Int)], ["timer_flags-set"])
 
 def runCmdsT (sc : Scripts) (w : World) : List Cmd → World × List Ev × List String
   | [] => (w, [], [])
